@@ -602,9 +602,19 @@ Definition fkeys (f : string * fmode * schema) : list string :=
 Definition flat_keys (fs : list (string * fmode * schema)) : list string := List.concat (map fkeys fs).
 Definition is_struct (s : schema) : bool := match s with SStruct _ _ _ => true | _ => false end.
 
+(* the object code an interface alternative is registered under: a struct (by value or pointer) or a byte array
+   (by value or pointer) whose type settings carry an object code *)
+Definition alt_code (s : schema) : option N :=
+  match s with
+  | SStruct _ (Some c) _ => Some c
+  | SByteArrO _ _ (Some c) _ => Some c
+  | _ => None
+  end.
+
 (* Schemas on which the model is the code (what the harness generates): distinct field keys (those of inlined and
    embedded structs included), none equal to "type" in a struct with an object code, inlined fields are structs, codes are uint32, map keys encode to strings, []uint8 is SBytes,
-   interface alternatives are value structs registered under their own distinct codes. *)
+   interface alternatives are structs or byte arrays (by value or behind a pointer) registered under their own distinct
+   codes. *)
 Fixpoint wf_schema (s : schema) : bool :=
   match s with
   | SStruct _ code fs =>
@@ -618,8 +628,10 @@ Fixpoint wf_schema (s : schema) : bool :=
   | SMap k v => key_schema k && wf_schema v
   | SIface alts =>
       forallb (fun a => match a with
-                        | (c, SStruct false (Some c') fs as x) => (c =? c')%N && wf_schema x
-                        | _ => false
+                        | (c, x) => match alt_code x with
+                                    | Some c' => (c =? c')%N && wf_schema x
+                                    | None => false
+                                    end
                         end) alts
       && code_nodup (map fst alts)
   | SByteArrO _ _ code key =>
